@@ -1,7 +1,7 @@
 """Path exploration (DFS by re-execution, parallel by prefix), obligations, sym/concrete environments."""
 import concurrent.futures as cf
 import multiprocessing as mp
-import io, contextlib, math, os, time, traceback, warnings, hashlib, json
+import io, contextlib, math, os, sys, time, traceback, warnings, hashlib, json
 from fractions import Fraction
 import numpy as np
 import z3
@@ -487,6 +487,7 @@ def run_path(harness, params, prefix, opts):
     out["inconclusive_feasibility"] = len(ctx.inconclusive)
     pc = ctx.pc()
     out["functions"] = sorted(ld.entered)
+    out["lines"] = ld.new_lines()
     want_cc = opts.get("crosscheck", True)
     otimeout = opts.get("otimeout", 60.0)
     if out["status"] == "ok":
@@ -594,6 +595,9 @@ def run_path(harness, params, prefix, opts):
             out["pc_model"] = fb[0]["model"]
             out["crosscheck"] = fb[0]["result"]
     out["nvars"] = len(env.vars)
+    rot_ = sys.modules.get("sx.rotation")
+    if rot_ is not None and getattr(rot_, "_LEMMAS", None):
+        out["lemmas"] = sorted(k for k, v in rot_._LEMMAS.items() if v)
     out["queries"] = solve.STATS["queries"] - q0
     out["seconds"] = round(time.time() - t0, 3)
     out["pc_size"] = len(pc)
